@@ -37,6 +37,21 @@ std::vector<std::string> make_keys(int kind, int n, uint64_t kseed) {
         }
         return out;
     }
+    if (kind == 7) {
+        // one long cluster: as many keys as one probe chain takes (the probe limit is half of the 256-slot table) homed at one slot,
+        // then keys homed at the next few slots, which land behind them: entries far beyond the probe limit from the head of the cluster
+        int head = std::max(1, n - (int)r.range(2, 12));
+        std::vector<std::string> tail;
+        long c2 = 0;
+        while (((int)out.size() < head || (int)tail.size() < n - head) && guard++ < 4000000) {
+            std::string k = "c" + std::to_string(c2++);
+            size_t h = heur_hash(k.c_str()) & 255;
+            if (h == target && (int)out.size() < head) add(k);
+            else if (h != target && ((h - target) & 255) <= 3 && (int)tail.size() < n - head) tail.push_back(k);
+        }
+        for (auto &k : tail) add(k);
+        return out;
+    }
     while ((int)out.size() < n && guard++ < 2000000) {
         std::string k = "k" + std::to_string(r.below(1000000)) + "_" + std::to_string(ctr++);
         size_t h = heur_hash(k.c_str());
@@ -396,10 +411,12 @@ Program gen_map(uint64_t seed, bool thorough) {
     p.set("seed", (long)seed);
     int kinds[] = {0, 0, 1, 2, 2, 3, 3, 4, 5, 6};
     int kind = kinds[r.below(10)];
+    if (r.chance(0.02)) kind = 7;   // (expensive: ~130 keys of one neighbourhood)
     int nkeys;
     if (kind == 5) nkeys = (int)r.range(200, thorough ? 900 : 420);   // growth
     else nkeys = (int)r.range(2, kind == 0 ? 40 : 10);
     if (kind == 6) nkeys = (int)r.range(3, 9);
+    if (kind == 7) nkeys = (int)r.range(120, 140);
     p.set("keykind", kind == 5 ? 0 : kind);
     p.set("nkeys", nkeys);
     p.set("kseed", (long)r.below(1000000));
@@ -412,6 +429,12 @@ Program gen_map(uint64_t seed, bool thorough) {
     bool faults = r.chance(0.25);
     p.set("faults", faults);
     int nops = (int)r.range(4, thorough ? 120 : 50);
+    if (kind == 7) {
+        // the cluster is built in key order (head of the cluster first), then taken apart from the front
+        for (int i = 0; i < nkeys; i++) p.add("D", "put", {i});
+        int nrm = (int)r.range(1, 6);
+        for (int i = 0; i < nrm; i++) { p.add("D", "remove", {(long)r.below(4)}); p.add("D", "get", {(long)(nkeys - 1 - (int)r.below(4))}); }
+    }
     if (kind == 5) {
         // fill phase forcing growth
         int fill = (int)r.range(nkeys / 2, nkeys);
